@@ -43,6 +43,8 @@ type Gen struct {
 	root     reflect.Value
 	enumMap  map[string][]reflect.Type
 	Skipped  map[string]int
+	// MutOps restricts Mutate: "" (all), "clear", "regen", "clear+regen".
+	MutOps string
 }
 
 type deferredItem struct {
@@ -268,7 +270,7 @@ func (g *Gen) setLeafList(sv reflect.Value, f *FieldInfo) bool {
 	min, max := 0, 4
 	if g.Opt.Valid && la != nil {
 		min = int(la.MinElements)
-		if la.MaxElements > 0 && int(la.MaxElements) < max {
+		if BoundedMax(la) && int(la.MaxElements) < max {
 			max = int(la.MaxElements)
 		}
 		if max < min {
@@ -312,6 +314,20 @@ func (g *Gen) setLeafList(sv reflect.Value, f *FieldInfo) bool {
 	}
 	fv.Set(sl)
 	return true
+}
+
+// ScalarFor draws one valid value of Go type t (the field type, or the element
+// type of a leaf-list) for leaf field f of the struct parent.  The zero Value is
+// returned when none could be drawn.
+func (g *Gen) ScalarFor(parent reflect.Value, f *FieldInfo, t reflect.Type) reflect.Value {
+	if g.enumMap == nil {
+		g.enumMap = enumTypeMap(g.C.NewRoot())
+	}
+	v, ok := g.valueOfType(parent, f, f.YType, t, false)
+	if !ok {
+		return reflect.Value{}
+	}
+	return v
 }
 
 // leafValue draws a value of Go type t for leaf field f.
@@ -587,7 +603,7 @@ func (g *Gen) listCount(f *FieldInfo) int {
 		if int(la.MinElements) > min {
 			min = int(la.MinElements)
 		}
-		if la.MaxElements > 0 && int(la.MaxElements) < max {
+		if BoundedMax(la) && int(la.MaxElements) < max {
 			max = int(la.MaxElements)
 		}
 	}
